@@ -1,6 +1,7 @@
 package props
 
 import (
+	"unicode/utf16"
 	"fmt"
 	"strings"
 	"time"
@@ -139,6 +140,44 @@ func runC06(e *core.Env) {
 		default:
 			text, kind = gen.RawBytes(r, r.PickInt(1, 5, 20, 60, 200, 1000)), "raw"
 		}
+		if kind != "tokens" && core.Hash64("c06-encoding", fmt.Sprint(e.Seed, i))%30 == 0 {
+			// what editors and shells on other systems put in front of (or make of) a text: byte order marks of UTF-8,
+			// UTF-16 and UTF-32, and the text itself in UTF-16 - complete or cut off in the middle of a unit
+			switch core.Hash64("c06-encoding-kind", fmt.Sprint(e.Seed, i)) % 8 {
+			case 0:
+				text = "\xef\xbb\xbf" + text
+			case 1:
+				text = "\xff\xfe" + text
+			case 2:
+				text = "\xfe\xff" + text
+			case 3:
+				text = "\xff\xfe\x00\x00" + text
+			case 4:
+				text = "\x00\x00\xfe\xff" + text
+			default:
+				le := core.Hash64("c06-encoding-le", fmt.Sprint(e.Seed, i))%2 == 0
+				var sb strings.Builder
+				if le {
+					sb.WriteString("\xff\xfe")
+				} else {
+					sb.WriteString("\xfe\xff")
+				}
+				for _, u := range utf16.Encode([]rune(text)) {
+					if le {
+						sb.WriteByte(byte(u))
+						sb.WriteByte(byte(u >> 8))
+					} else {
+						sb.WriteByte(byte(u >> 8))
+						sb.WriteByte(byte(u))
+					}
+				}
+				text = sb.String()
+				if core.Hash64("c06-encoding-cut", fmt.Sprint(e.Seed, i))%2 == 0 && len(text) > 2 {
+					text = text[:len(text)-1]
+				}
+			}
+			kind = "encoding"
+		}
 		e.Begin(i, []byte(text))
 		t0 := time.Now()
 		c06One(e, r, i, text, kind)
@@ -240,7 +279,17 @@ func c06One(e *core.Env, r *core.Rand, idx int64, text, kind string) {
 				e.Violation("error-json-panic: "+pi.Site(), "JSON view of the errors panicked: "+pi.Value, w)
 			}
 		}
-		if idx%250 == 3 && e.KlogBin != "" {
+		if kind == "encoding" || idx%10 == 7 {
+			// the same bytes as a file: reading it is part of "no file content can crash klog"
+			f := writeFile(e.Dir, "c06rej.klg", text)
+			res := runRO(e, &cli.Total{WarnArgs: util.WarnArgs{NoWarn: true}, NoStyleArgs: util.NoStyleArgs{NoStyle: true}, InputFilesArgs: util.InputFilesArgs{File: files(f)}}, 1, "", "", time.Date(2024, 3, 15, 12, 0, 0, 0, time.UTC))
+			if res.Panic != nil {
+				e.Violation("command-panic: "+res.Panic.Site(), "`klog total FILE` on a rejected text panicked: "+res.Panic.Value, w)
+				return
+			}
+			e.Count("rejected_texts_read_from_a_file", 1)
+		}
+		if (idx%250 == 3 || kind == "encoding" && idx%5 == 0) && e.KlogBin != "" {
 			c06Binary(e, r, text, false, w)
 		}
 		return
